@@ -27,7 +27,7 @@ def plan_c15(c):
     c.apalache("Ap_VarInt", "Inv")
     c.apalache("Ap_VarInt", "InvControl", expect_ok=False)
     # (2) the writer loop and the byte-at-a-time reader as state machines vs the declarative definitions
-    c.tlc_mc("MC_VarInt", "MC_VarInt")
+    c.tlc_mc("MC_VarInt", "MC_VarInt", coverage=True)
     # (3) the real helpers / writer / readers: exhaustive tables + point and pattern events
     for prof in (("release", "debug") if c.tier == "thorough" else ("release",)):
         files, info = c.record("varint", name="varint-" + prof, profile=prof, shard=4000)
@@ -52,7 +52,7 @@ def plan_c19(c):
     base = open(vlib.SPEC + "/mc/MC_Pid.cfg").read()
     for w in widths:
         c.tlc_mc("MC_Pid-W%d" % w, "MC_Pid", cfg_text=base.replace("CONSTANT W = 6", "CONSTANT W = %d" % w),
-                 workers=12)
+                 workers=12, coverage=True)
     for prof in ("release", "debug"):
         files, info = c.record("pid", name="pid-" + prof, profile=prof)
         n = c.validate("Trace_Pid", files, cfg="Trace_Pid.cfg", what="C19 packet identifier ring (%s build)" % prof)
@@ -73,7 +73,8 @@ def mc_topic(c):
     for (forced, n) in (("ForcedNone", free), ("ForcedShare6", 6 + free), ("ForcedShare7", 7 + free),
                         ("ForcedShareG", 9 + free)):
         c.tlc_mc("MC_Topic-%s" % forced, "MC_Topic",
-                 cfg_text=base.replace("ForcedNone", forced).replace("MaxChars = 4", "MaxChars = %d" % n), workers=12)
+                 cfg_text=base.replace("ForcedNone", forced).replace("MaxChars = 4", "MaxChars = %d" % n), workers=12,
+                 coverage=True)
 
 
 def plan_topic(prop, what):
@@ -92,6 +93,158 @@ def plan_topic(prop, what):
                 (5, 5) if c.tier == "thorough" else (4, 4)))
         return n
     return plan
+
+
+# ------------------------------------------------------------------------------------------------
+# wire grammar: bounded-exhaustive packet domain (MC_Wire) = model-level lemmas + GEN source
+WIRE_GROUPS = [("v3", "AllTypes3"), ("v5", "TypesA"), ("v5", "TypesB"), ("v5", "TypesC"), ("v5", "TypesD")]
+
+
+def mc_wire(c, emit=None, invariants=None):
+    """Model-check the grammar's own lemmas over the bounded packet domain of both families; with
+    emit=<path> the packets of the domain are also written as JSON vectors (GEN direction)."""
+    base = open(vlib.SPEC + "/mc/MC_Wire.cfg").read()
+    pmax = 2 if c.tier == "thorough" else 1
+    nvec = 0
+    for fam, grp in WIRE_GROUPS:
+        cfg = base.replace('Fam = "v3"', 'Fam = "%s"' % fam).replace("AllTypes3", grp)
+        cfg = cfg.replace("PropSubsetMax = 1", "PropSubsetMax = %d" % pmax)
+        if emit:
+            cfg = cfg.replace("EmitVectors = FALSE", "EmitVectors = TRUE")
+        if invariants:
+            cfg = cfg.replace("INVARIANT InDomain PrefixIncomplete RoundTrip Lengths TrailingIgnored Emit",
+                              "INVARIANT " + " ".join(invariants) + " Emit")
+        out = c.tlc_mc("MC_Wire-%s-%s" % (fam, grp), "MC_Wire", cfg_text=cfg, workers=12, want_output=True,
+                       timeout=3600)
+        if emit:
+            nvec += c.vectors_from(out, emit)
+    if emit:
+        c.steps.append("GEN: %d packets of the bounded domain emitted by TLC as vectors" % nvec)
+    return nvec
+
+
+def gen_replay(c, mode, module, cfg, what, profile="release"):
+    """spec -> implementation: TLC enumerates the bounded packet domain, the harness builds each packet as a
+    real value and pushes it through the real code, the observations are validated against the spec."""
+    vec = c.work + "/vectors.ndjson"
+    if os.path.exists(vec):
+        os.remove(vec)
+    nvec = mc_wire(c, emit=vec)
+    files, info = c.record("vectors", name="gen-" + mode + "-" + profile, profile=profile, shard=6000,
+                           extra=["--in", vec, "--mode", mode])
+    n = c.validate(module, files, cfg=cfg, what=what + " (spec-generated packets)", procs=10)
+    c.traces += n
+    c.extra["gen_vectors"] = nvec
+    c.sample_events(files[0], n=2)
+    return n
+
+
+def tv(c, area, module, cfg, what, profile="release", shard=4000, per_run=False, name=None, procs=10):
+    files, info = c.record(area, name=name or (area + "-" + profile), profile=profile, shard=shard)
+    n = c.validate(module, files, cfg=cfg, what=what, procs=procs, per_run=per_run)
+    c.sample_events(files[0], n=2)
+    if len(files) > 1:
+        c.sample_events(files[-1], n=1)
+    return n, files
+
+
+def mc_poll(c):
+    base = open(vlib.SPEC + "/mc/MC_Poll.cfg").read()
+    live = open(vlib.SPEC + "/mc/MC_Poll_live.cfg").read()
+    for fam in ("v3", "v5"):
+        c.tlc_mc("MC_Poll-" + fam, "MC_Poll", cfg_text=base.replace('Fam = "v3"', 'Fam = "%s"' % fam), workers=1)
+        c.tlc_mc("MC_Poll-live-" + fam, "MC_Poll", cfg_text=live.replace('Fam = "v3"', 'Fam = "%s"' % fam), workers=8)
+
+
+def plan_c01(c):
+    n = gen_replay(c, "roundtrip", "Trace_Wire", "Trace_Wire_C01.cfg", "C01 round trip")
+    m, _ = tv(c, "roundtrip", "Trace_Wire", "Trace_Wire_C01.cfg", "C01 round trip (seeded rich packets)")
+    c.traces += m
+    return n + m
+
+
+def plan_c02(c):
+    n = 0
+    for prof in ("release", "debug"):
+        n += gen_replay(c, "lens", "Trace_Wire", "Trace_Wire_C02.cfg", "C02 lengths, %s build" % prof, profile=prof) \
+            if prof == "release" else 0
+        m, _ = tv(c, "lens", "Trace_Wire", "Trace_Wire_C02.cfg", "C02 lengths (%s build)" % prof, profile=prof)
+        c.traces += m
+        n += m
+    c.apalache("Ap_VarInt", "Inv")
+    return n
+
+
+def plan_c09(c):
+    n = gen_replay(c, "enc", "Trace_Wire", "Trace_Wire_C09.cfg", "C09 encoder entry points")
+    m, _ = tv(c, "enc", "Trace_Wire", "Trace_Wire_C09.cfg", "C09 encoder entry points (seeded rich packets)")
+    c.traces += m
+    return n + m
+
+
+def plan_c10(c):
+    n = gen_replay(c, "enc", "Trace_Wire", "Trace_Wire_C10.cfg", "C10 conformance of emitted bytes")
+    m, _ = tv(c, "enc", "Trace_Wire", "Trace_Wire_C10.cfg", "C10 conformance of emitted bytes (seeded rich packets)")
+    c.traces += m
+    return n + m
+
+
+def plan_c07(c):
+    mc_poll(c)
+    n = gen_replay(c, "cut", "Trace_Front", "Trace_Front_C07.cfg", "C07 every cut of every packet of the bounded domain")
+    m, _ = tv(c, "cut", "Trace_Front", "Trace_Front_C07.cfg", "C07 incomplete input / trailing bytes")
+    c.traces += m
+    return n + m
+
+
+def plan_c06(c):
+    mc_poll(c)
+    m, _ = tv(c, "dec3", "Trace_Front", "Trace_Front_C06.cfg", "C06 agreement of the three front-ends")
+    c.traces += m
+    return m
+
+
+def plan_c03(c):
+    mc_poll(c)
+    m, _ = tv(c, "dec3", "Trace_Front", "Trace_Front_C03.cfg", "C03 totality on corrupted / random inputs")
+    k, _ = tv(c, "short", "Trace_Front", "Trace_Front_C03.cfg", "C03 totality, exhaustive short strings", shard=2000)
+    p, _ = tv(c, "poll", "Trace_Poll", "Trace_Poll_C03.cfg", "C03 buffer discipline / no spinning at the transport boundary",
+              shard=50000, per_run=True)
+    c.traces += m + k
+    c.extra["exhaustive_short_strings"] = "all byte strings of length <= %d through 5 entry points x 2 families" % (
+        3 if c.tier == "thorough" else 2)
+    return m + k * 256 + p
+
+
+def plan_c05(c):
+    mc_poll(c)
+    p, files = tv(c, "poll", "Trace_Poll", "Trace_Poll_C05.cfg", "C05 schedule independence / cancellation safety",
+                  shard=50000, per_run=True)
+    runs = 0
+    for f in files:
+        with open(f) as fh:
+            runs += sum(1 for l in fh if '"RunEnd"' in l)
+    c.traces += runs
+    c.extra["runs"] = runs
+    return runs
+
+
+def plan_c08(c):
+    mc_poll(c)
+    p, files = tv(c, "stream", "Trace_Stream", "Trace.cfg", "C08 back-to-back framing", shard=20000, per_run=True)
+    runs = 0
+    for f in files:
+        with open(f) as fh:
+            runs += sum(1 for l in fh if '"StreamStart"' in l)
+    c.traces += runs
+    return runs
+
+
+def plan_c14(c):
+    mc_poll(c)
+    m, _ = tv(c, "fault", "Trace_Front", "Trace_Front_C14.cfg", "C14 fault injection at every position", shard=60)
+    c.traces += m
+    return m
 
 
 NOT_CLAIMED = {}
@@ -151,6 +304,73 @@ for _p, _what, _claim in (
                  "rule": "one case = one string (or ordered pair of filters) run through the real code; distinct by text; "
                          "all are non-trivial in that each is evaluated against the declarative rule",
                  "trusted": SPEC_TRUST}
+
+
+WIRE_NOTE = ("Trusts Wire.tla (tables typed from the OASIS texts; self-consistency model-checked by MC_Wire), TLC, and the "
+             "harness's packet <-> abstract JSON projection.")
+
+
+def _reg(pid, plan, level, claim, technique, note=WIRE_NOTE, rule=None):
+    PLANS[pid] = {"plan": plan, "level": level, "claim": claim, "technique": technique, "note": note,
+                  "design_ref": "DESIGN.md section 6, %s" % pid,
+                  "rule": rule or "one case = one packet / byte string / run pushed through the real code and validated "
+                                  "against the specification; distinct by content",
+                  "trusted": SPEC_TRUST}
+
+
+_reg("C01", plan_c01, "model_checking",
+     "The wire grammar's own round-trip lemmas are model-checked over a bounded-exhaustive packet domain of both families "
+     "(MC_Wire); every packet of that domain (spec-generated) and seeded rich packets (boundary lengths, long user-property "
+     "lists, every code) are pushed through the real encoder and the three real decoders, and each recorded observation is "
+     "validated: encoding succeeds, all three decoders return the packet, poll total and raw body are exact.",
+     "TLA+ grammar + TLC bounded-exhaustive domain + spec-generated vectors replayed + trace validation")
+_reg("C02", plan_c02, "model_checking",
+     "Length lemmas of the grammar model-checked (MC_Wire: Lengths) and proved for the header arithmetic (Apalache); on the "
+     "real code, in debug AND release builds: emitted size = encode_len, header remaining length = bytes that follow and is "
+     "minimal, every separately encodable part writes what it reports, sizes straddling every width boundary, refusal above "
+     "268,435,455.", "TLA+ grammar + TLC + Apalache + trace validation in both build profiles")
+_reg("C09", plan_c09, "model_checking",
+     "Every packet of the bounded domain and seeded rich packets: blocking encoder = repeated = cloned = async encoder under "
+     "five sink scripts (all-at-once, 1 byte, 3 bytes, Pending before every 1-byte write, random) and packet = fixed header + "
+     "streamed body (whole and 1-byte sinks); validated by TLC against the equations of C09.",
+     "TLA+ spec + spec-generated vectors + trace validation of scripted-sink runs")
+_reg("C10", plan_c10, "model_checking",
+     "The emitted bytes of every packet of the bounded domain, of every wire-numbered enum variant and of seeded rich packets "
+     "are parsed by the specification's own grammar (typed from the OASIS documents, independent of the library's tables): "
+     "strict and lenient parse must return exactly the original packet, the length must be minimal, the control byte exact.",
+     "trace validation against an independent TLA+ grammar")
+_reg("C07", plan_c07, "model_checking",
+     "Prefix-incompleteness and trailing-byte lemmas model-checked on the grammar (MC_Wire) and EOF-at-every-position on the "
+     "poll decoder model (MC_Poll); on the real code every cut of every packet of the bounded domain and of seeded rich packets "
+     "through blocking / async / poll decoders, plus random suffixes.",
+     "TLA+ spec + TLC + spec-generated vectors (every cut) + trace validation")
+_reg("C06", plan_c06, "model_checking",
+     "Poll-decoder model checked to agree with the lenient grammar on its stream set (MC_Poll: LenientAgrees); the C06 relation "
+     "between the three real decoders (and the two header decoders) validated on valid encodings with suffixes, structure-aware "
+     "corruptions, header-guided and random bytes.", "TLA+ spec + TLC + trace validation of differential observations")
+_reg("C03", plan_c03, "model_checking",
+     "Totality, termination (liveness under a fair transport), buffer discipline and no-uninitialised-exposure model-checked on "
+     "PollDecoder for every schedule / EOF / fault point; real code: all byte strings up to 2 (thorough: 3) bytes, corrupted and "
+     "random inputs through every entry point (a panic or spin is an unmatched event), and the transport-boundary log of the "
+     "poll decoder (capacity, buffer offset, coverage of the returned body, polls <= Pendings + 1). The memory-safety clause "
+     "proper is only explored, not decided (DESIGN.md section 8).",
+     "TLA+ transition system + TLC (safety + liveness) + trace validation incl. exhaustive short inputs",
+     note="Memory safety inside unsafe blocks is outside what a TLA+ model decides; claimed at exploration strength only.")
+_reg("C05", plan_c05, "model_checking",
+     "PollDecoder (implementation-shaped) model-checked for every chunking, Pending, drop/re-create, EOF and fault point on a "
+     "stream set of every packet type, and shown to refine the representation-free PollAbs; real code: ALL chunkings x Pending/"
+     "drop modes of short streams of every type and seeded random schedules over frames with 1-3 byte length fields, each run's "
+     "transport-boundary events validated against PollAbs (within-frame reads, Pending only after Pending, output = one-shot "
+     "output, consumed = reported).", "TLA+ transition system + refinement + TLC + trace validation of scheduled runs")
+_reg("C08", plan_c08, "model_checking",
+     "Framing state machine (next packet index, stream position) validated on seeded packet sequences decoded back to back by "
+     "the poll (random chunking), async and blocking front-ends; model side: PollDecoder's ConsumedIsReported / AsksWithinFrame.",
+     "TLA+ trace spec (state machine) + TLC + trace validation")
+_reg("C14", plan_c14, "fault_enumeration",
+     "Fault actions enabled at every position in the PollDecoder model (FailKeepsKind, EofMeansTruncated); real code: for each "
+     "seeded packet a read error of 4 kinds or EOF at EVERY position (async + poll), a write error of 4 kinds or zero-length "
+     "write at EVERY position (async encoder, streaming body encoder), and the error conversions; validated against the spec.",
+     "fault enumeration at every position + TLA+ model with fault actions + trace validation")
 
 
 def replay(path):
